@@ -237,7 +237,6 @@ def plan(prop, tier):
                               "transcript": f"{prof}-{i}"})
         for fl in ("release", "debug"):
             P.append({"fl": fl, "args": ["limits", "--n", str(400 if q else 3000), "--shard", "0/1"], "timeout": 1800, "leaks_ok": False, "transcript": "limits-0"})
-            P.append({"fl": fl, "args": ["sentinels", "--shard", "0/1"], "timeout": 600, "leaks_ok": False, "transcript": "sentinels-0"})
     else:
         raise SystemExit(f"unknown property {prop}")
     if q:
@@ -455,21 +454,40 @@ def first_in_repo_frame(text):
     return "?"
 
 def compare_transcripts(results, logdir, prop):
-    """C17: line-by-line comparison of the transcripts of the release and the debug build."""
+    """C17: line-by-line comparison of the transcripts of the release and the debug build.
+
+    Transcripts are appended history by history, so a process that died still leaves what it
+    completed. If one build died in a history the other build completed, that is a divergence;
+    if both died at the same point nothing is concluded from the tail."""
     pairs = {}
     for r in results:
         if r["transcript"]:
             pairs.setdefault(r["sh"]["transcript"], {})[r["sh"]["fl"]] = r
     compared = split = hists = 0
     viols = []
+    inconclusive = []
     digests = set()
+    def died(r):
+        return r["timed_out"] or r["rc"] not in (0, 1, 2) or r["res"] is None
+    def how(r):
+        if r["timed_out"]:
+            return "did not finish (watchdog)"
+        if r["rc"] == 86:
+            return "hung inside a call (no progress for 60 s)"
+        if r["rc"] == -9:
+            return "was killed (SIGKILL)"
+        return f"died with exit status {r['rc']}"
     for name, p in sorted(pairs.items()):
         if "release" not in p or "debug" not in p:
             continue
+        ra_, rb_ = p["release"], p["debug"]
+        if ra_["rc"] == -9 or rb_["rc"] == -9 or ra_["timed_out"] or rb_["timed_out"]:
+            inconclusive.append(f"transcript-pair-{name}:killed-or-watchdog")
         try:
-            a = open(p["release"]["transcript"]).read().splitlines()
-            b = open(p["debug"]["transcript"]).read().splitlines()
+            a = open(ra_["transcript"]).read().splitlines()
+            b = open(rb_["transcript"]).read().splitlines()
         except OSError:
+            inconclusive.append(f"transcript-pair-{name}:missing")
             continue
         n = min(len(a), len(b))
         diff_at = None
@@ -490,25 +508,47 @@ def compare_transcripts(results, logdir, prop):
                     cur_split = True
             if a[i].startswith("## end") and cur_split:
                 digests.add(hash(tuple(a[cur_hist_start:i])))
-        if diff_at is None and len(a) != len(b):
-            diff_at = n
+        msg = None
         if diff_at is not None:
+            ra = a[diff_at]
+            rb = b[diff_at]
+            msg = f"release and debug builds diverge ({name}, line {diff_at+1}): release `{ra[:300]}` vs debug `{rb[:300]}`"
+        elif len(a) != len(b):
+            # one transcript stops early
+            short, long_, sr, lr, sn, ln = (a, b, ra_, rb_, "release", "debug") if len(a) < len(b) else (b, a, rb_, ra_, "debug", "release")
+            if died(sr) and sr["rc"] != -9 and not sr["timed_out"]:
+                hs = len(short) - 1
+                while hs > 0 and not short[hs].startswith("## history"):
+                    hs -= 1
+                msg = (f"release and debug builds diverge ({name}): the {sn} build {how(sr)} during `{short[hs][:200] if short else '?'}` "
+                       f"while the {ln} build completed that history (next line: `{long_[len(short)][:200]}`)")
+                diff_at = len(short)
+            elif not died(sr):
+                msg = f"release and debug builds diverge ({name}): the {sn} transcript ends after {len(short)} lines, the {ln} one continues"
+                diff_at = len(short)
+        elif died(ra_) and died(rb_) and how(ra_) != how(rb_) and ra_["rc"] != -9 and rb_["rc"] != -9 and not ra_["timed_out"] and not rb_["timed_out"]:
+            hs = len(a) - 1
+            while hs > 0 and not a[hs].startswith("## history"):
+                hs -= 1
+            msg = f"release and debug builds diverge ({name}) in `{a[hs][:200] if a else '?'}`: the release build {how(ra_)}, the debug build {how(rb_)}"
+            diff_at = len(a)
+        elif died(ra_) and died(rb_):
+            inconclusive.append(f"transcript-pair-{name}:both-builds-died-at-the-same-point")
+        if msg is not None:
             os.makedirs(os.path.join(REPLAYS, prop), exist_ok=True)
             path = os.path.join(REPLAYS, prop, f"transcript-diff-{name}.replay")
             lo = max(0, diff_at - 25)
-            # find the start of the history
-            hs = diff_at
-            while hs > 0 and not a[min(hs, len(a) - 1)].startswith("## history"):
+            hs = min(diff_at, len(a) - 1)
+            while hs > 0 and not a[hs].startswith("## history"):
                 hs -= 1
             with open(path, "w") as f:
-                f.write(f"# gv replay\nproperty {prop}\nkind transcript-diff\nshard {' '.join(p['release']['sh']['args'])}\n")
-                f.write(f"message release and debug transcripts differ at line {diff_at+1}\n")
-                f.write("history " + (a[hs] if hs < len(a) else "?") + "\n")
+                f.write(f"# gv replay\nproperty {prop}\nkind transcript-diff\nshard {' '.join(ra_['sh']['args'])}\n")
+                f.write(f"message {msg}\n")
+                f.write("history " + (a[hs] if a and hs < len(a) else "?") + "\n")
                 f.write("--- release\n" + "\n".join(a[lo:diff_at + 3]) + "\n--- debug\n" + "\n".join(b[lo:diff_at + 3]) + "\n")
-            ra = a[diff_at] if diff_at < len(a) else "<end of transcript>"
-            rb = b[diff_at] if diff_at < len(b) else "<end of transcript>"
-            viols.append((f"release and debug builds diverge ({name}, line {diff_at+1}): release `{ra[:300]}` vs debug `{rb[:300]}`", path))
-    return compared, split, hists, len(digests), viols
+                f.write(f"--- release stderr tail\n{(ra_['err'] or '')[-1500:]}\n--- debug stderr tail\n{(rb_['err'] or '')[-1500:]}\n")
+            viols.append((msg, path))
+    return compared, split, hists, len(digests), viols, inconclusive
 
 def load_known():
     p = os.path.join(ROOT, "known_findings.json")
@@ -664,7 +704,9 @@ def main():
         M["flavours"][fl]["sanitizer_reports"] = n
     # C17: compare transcripts
     if prop == "C17":
-        compared, split, hists, nd, tviol = compare_transcripts(results, logdir, prop)
+        compared, split, hists, nd, tviol, tinc = compare_transcripts(results, logdir, prop)
+        # crashes of transcript shards are judged by the comparison above, not one by one
+        inconclusive_reasons = [x for x in inconclusive_reasons if not x.startswith(("crash:", "hang:", "sanitizer:"))] + tinc
         M["counts"]["transcript_lines_compared"] = compared
         M["counts"]["transcript_lines_split"] = split
         M["evaluations"] = hists
